@@ -2,7 +2,7 @@
 
     Encoding of a Go value (harness/x03.go BUILDS the Go value from the same text with reflect and renders
     results back into it):
-      value  [0] nil interface | [1,k,n] scalar of reflect.Kind k in 1..11 | [2,x<bytes>] string
+      value  [0] nil interface | [1,k,n] scalar of reflect.Kind k in 1..11, 13, 14 (floats: n = the IEEE bit pattern) | [2,x<bytes>] string
              | [3,T,flags,[v,...]] slice of element type T (flags bit 0: nil slice, bit 1: named type)
              | [4,T,[v,...]] array | [5,v] pointer to v | [6,T] nil pointer | [7,kind] map/struct/chan/func
       type   [0] interface{} | [1,k] | [2] string | [3,T] slice | [4,T,n] array | [5,T] pointer
@@ -20,7 +20,7 @@ Open Scope Z_scope.
 Fixpoint dec_ty (v : val) : option gty :=
   match v with
   | VL [VZ 0] => Some TIface
-  | VL [VZ 1; VZ k] => if (1 <=? k) && (k <=? 11) then Some (TScalar k) else None
+  | VL [VZ 1; VZ k] => if scalar_kind k then Some (TScalar k) else None
   | VL [VZ 2] => Some TString
   | VL [VZ 3; t] => match dec_ty t with Some t => Some (TSlice t) | None => None end
   | VL [VZ 4; t; VZ n] => match dec_ty t with Some t => if 0 <=? n then Some (TArray t n) else None | None => None end
@@ -31,7 +31,7 @@ Fixpoint dec_ty (v : val) : option gty :=
 Fixpoint dec_val (v : val) : option gval :=
   match v with
   | VL [VZ 0] => Some GNil
-  | VL [VZ 1; VZ k; VZ n] => if (1 <=? k) && (k <=? 11) then Some (GScalar k n) else None
+  | VL [VZ 1; VZ k; VZ n] => if scalar_kind k then Some (GScalar k n) else None
   | VL [VZ 2; VL bs] => match opt_all (map as_z bs) with Some bs => Some (GString bs) | None => None end
   | VL [VZ 3; t; VZ fl; VL el] =>
       match dec_ty t, opt_all (map dec_val el) with
